@@ -261,4 +261,32 @@ theorem expWeights_sum_pos (s tol : ℝ) (us ms : List ℝ) (hne : us ≠ []) (h
   obtain ⟨x, hx, hxp⟩ := hex
   exact lt_of_lt_of_le hxp (List.single_le_sum hnn x hx)
 
+/-- normalisation cancels a common factor -/
+theorem normalise_scale (w : List ℝ) (k : ℝ) (hk : k ≠ 0) : normalise (w.map (· * k)) = normalise w := by
+  unfold normalise
+  simp only [lsum_eq, List.map_map]
+  have hs : (w.map (· * k)).sum = w.sum * k := by
+    induction w with
+    | nil => simp
+    | cons x xs ih => simp only [List.map_cons, List.sum_cons, ih]; ring
+  rw [hs]
+  apply List.map_congr_left
+  intro x _
+  simp only [Function.comp]
+  by_cases hz : w.sum = 0
+  · simp [hz]
+  · field_simp
+
+/-- the subtraction of `max(utility)` that the code performs before exponentiating (to avoid overflow) cancels in the
+normalisation: shifting every utility by any constant `c` leaves the selection law unchanged -/
+theorem exp_shift_cancels (s c : ℝ) (us : List ℝ) :
+    normalise (us.map (fun x => Real.exp (s * (x - c)))) = normalise (us.map (fun x => Real.exp (s * x))) := by
+  have : us.map (fun x => Real.exp (s * (x - c))) = (us.map (fun x => Real.exp (s * x))).map (· * Real.exp (-(s * c))) := by
+    rw [List.map_map]
+    apply List.map_congr_left
+    intro x _
+    simp only [Function.comp]
+    rw [← Real.exp_add]; congr 1; ring
+  rw [this, normalise_scale _ _ (Real.exp_pos _).ne']
+
 end DPL.Discrete
